@@ -2,8 +2,8 @@
    Statements only; every proof is `exact <lemma of Proofs/C08_*.v>`.
    Quantification: every pin value / every decoded protobuf message (fields arbitrary or absent). *)
 From V Require Import Base.Common Base.C08_Str Model.C08_Codec Model.C08_Query Model.C08_Status Model.C08_Equals
-  Base.C08_Schema Gen.C08Tags Model.C08_Fmap
-  Proofs.C08_Codec Proofs.C08_Query Proofs.C08_Status Proofs.C08_Equals Proofs.C08_Fmap.
+  Base.C08_Schema Gen.C08Tags Model.C08_Fmap Model.C08_Wire
+  Proofs.C08_Codec Proofs.C08_Query Proofs.C08_Status Proofs.C08_Equals Proofs.C08_Fmap Proofs.C08_Wire.
 From Coq Require Import Permutation.
 Open Scope string_scope.
 Open Scope Z_scope.
@@ -213,3 +213,26 @@ Example codec_examples :
                     && wf_val c api_schema false (TStruct "PinInfo") false info
                     && wf_val c api_schema false (TStruct "ID") false idv) [Msgpack; Json] = true.
 Proof. vm_compute. reflexivity. Qed.
+
+(* ---- growth item: the stored pin at byte level (proto3 wire format of api/pb/types.proto) ---- *)
+
+(* base-128 varints: every uint64, followed by anything *)
+Theorem varint_roundtrip n rest : (n < 2 ^ 64)%N -> varint_dec (varint_enc n ++ rest) = Some (n, rest).
+Proof. exact (varint_rt n rest). Qed.
+Print Assumptions varint_roundtrip.
+
+(* zigzag of sint32 fields *)
+Theorem zigzag_roundtrip z : unzigzag (zigzag z) = z.
+Proof. exact (zigzag_rt z). Qed.
+Print Assumptions zigzag_roundtrip.
+
+(* any sequence of varint and length-delimited fields is read back as written *)
+Theorem wire_fields_roundtrip fs : Forall wfield_ok fs -> wparse_all (ser_fields fs) = Some fs.
+Proof. exact (parse_all_ser fs). Qed.
+Print Assumptions wire_fields_roundtrip.
+
+(* the stored pin message: cid, type, repeated allocations, sint32 depth, reference, embedded options with
+   sint32 factors, name, shard size, metadata map entries, pin-update, expiry, repeated origins *)
+Theorem wire_pin_roundtrip p : wpin_ok p -> parse_pin (ser_pin p) = Some p.
+Proof. exact (Proofs.C08_Wire.wire_pin_roundtrip p). Qed.
+Print Assumptions wire_pin_roundtrip.
